@@ -7,7 +7,7 @@ import Manticore.Model.SmbIR
 namespace Manticore.SmbCodecs
 open Manticore Manticore.SmbIR
 
-def enc (typ : String) (v : Tup) : Outcome Bytes :=
+def encBytes (typ : String) (v : Tup) : Outcome Bytes :=
   match typ, v with
   | "FILETIME", ([lo, hi], []) => .ok (natLe 4 lo ++ natLe 4 hi)
   | "SMB_TIME", ([lo, hi], []) => .ok (natLe 4 lo ++ natLe 4 hi)
@@ -44,6 +44,8 @@ def setFmt (k : Nat) (v : Tup) : Tup :=
   match v with
   | (_ :: rest, bs) => (k :: rest, bs)
   | _ => v
+
+def enc (typ : String) (v : Tup) : Outcome (Bytes × Tup) := (encBytes typ v).map' (fun b => (b, v))
 
 def std : Codecs := { enc := enc, dec := dec, setFmt := setFmt }
 
